@@ -17,6 +17,9 @@ Definition err_code (e : err) : Z :=
 
 (* symbolic bulk bytes: (salt, length) *)
 Definition gb (salt len : Z) : list Z := gen_body salt (Z.to_nat len).
+(* a value with [z] leading zero bytes: z zeros followed by gb salt (len - z); total length len
+   (harness/c01.go gOpt.bytes) -- uint-format option values in non-minimal form *)
+Definition zgb (z salt len : Z) : list Z := repeat 0 (Z.to_nat z) ++ gb salt (len - z).
 Definition sentinel : Z := 165.
 Definition sbuf (len : Z) : list Z := repeat sentinel (Z.to_nat len).
 Definition mk (tok : list Z) (code : Z) (opts : list opt) (pay : list Z) (mid typ : Z) : msg :=
